@@ -290,8 +290,7 @@ MODELS += [
     (r'(?:^|::)(mio::)?Waker::wake$', m_mio_wake),
     (r'Instant::now$', m_now), (r'(?:^|::)Duration::from_millis$', m_dur_ms), (r'Instant as Add<Duration>>::add$', m_inst_add),
     (r'Instant as Sub>::sub$', m_inst_sub), (r'Instant as PartialOrd>::lt$', m_inst_lt), (r'<Duration as PartialOrd>::gt$', m_dur_gt),
-    (r'(?:^|::)MioListener::accept$', m_listener_accept), (r'(?:^|::)std::io::Error::kind$', m_err_kind), (r'^<ErrorKind as PartialEq>::eq$', m_kind_eq),
-    (r'(?:^|::)MioListener::local_addr$', m_local_addr), (r'(?:^|::)Registry::register::<', m_register), (r'(?:^|::)Registry::deregister::<', m_deregister),
+    (r'(?:^|::)std::io::Error::kind$', m_err_kind), (r'^<ErrorKind as PartialEq>::eq$', m_kind_eq),
     (r'(?:^|::)(mio::)?Poll::registry$', m_poll_registry), (r'(?:^|::)(mio::)?Token$', m_token),
 ]
 def m_opt_is_none(ex, a, t): return z3.BoolVal(target(a[0]).variant == 'None')
